@@ -49,6 +49,11 @@ impl PartialOrd for EraK {
 
 pub const NETWORK_ID: u8 = 1;
 pub const BLOCK_SLOT: u64 = 5_281_340;
+/// The slot the block under validation is in. The Babbage validator keys its hard-coded cost models on it; Babbage
+/// recipes live after mainnet epoch 394, where PlutusV2 exists.
+pub fn block_slot(era: EraK) -> u64 {
+    if era == EraK::Babbage { 90_000_000 } else { BLOCK_SLOT }
+}
 
 pub struct Key {
     pub sk: SigningKey,
@@ -121,6 +126,12 @@ pub struct PlutusS {
     pub total_collateral: bool,
     /// Conway: redeemers as map
     pub redeemer_map: bool,
+    /// Babbage and later: the script is not in the witness set but in the `script_ref` of a reference input
+    #[serde(default)]
+    pub via_reference: bool,
+    /// Alonzo / Babbage: the witness set also carries the other script lists (native, other Plutus versions) as empty arrays
+    #[serde(default)]
+    pub empty_sibling_lists: bool,
 }
 
 #[derive(Debug, Clone, PartialEq, Serialize, Deserialize)]
@@ -152,6 +163,9 @@ pub struct Spec {
     /// of code for the three eras and reads the field in all of them)
     #[serde(default)]
     pub early_multiasset: bool,
+    /// Babbage and later: this many plain reference inputs (field 18) with their own UTxO entries (role "reference")
+    #[serde(default)]
+    pub ref_inputs: u8,
 }
 
 #[derive(Debug, Clone)]
@@ -181,6 +195,8 @@ pub struct Forged {
     pub total_mem: u64,
     pub total_steps: u64,
     pub has_plutus: bool,
+    /// the Plutus script is supplied by a reference input, not by the witness set
+    pub script_by_reference: bool,
 }
 
 pub const KEY_DEPOSIT: u64 = 2_000_000;
@@ -249,7 +265,8 @@ pub const ALONZO_V1_LANGUAGE_VIEW: &str = "a141005901d59f1a000302590001011a00060
 pub fn plutus_version(era: EraK, want: u8) -> u8 {
     match era {
         EraK::Alonzo => 1,
-        EraK::Babbage => 1, // the Babbage validator hard-codes cost-model blobs by network/slot; V1 is the stable one
+        // the Babbage validator hard-codes cost-model blobs by network/slot (see babbage_views.rs)
+        EraK::Babbage => want.clamp(1, 2),
         EraK::Conway => want.clamp(1, 3),
         _ => 1,
     }
@@ -310,6 +327,9 @@ pub struct Tweaks {
     /// write an empty output list and declare everything the inputs hold as the fee (balanced in lovelace, degenerate in shape)
     #[serde(default)]
     pub no_outputs: bool,
+    /// script by reference: leave the reference input that carries the script out of field 18 (its UTxO entry stays)
+    #[serde(default)]
+    pub drop_script_reference: bool,
     /// the first output holds 0 lovelace (its amount goes to the change output instead; still balanced)
     #[serde(default)]
     pub zero_coin_output: bool,
@@ -331,6 +351,9 @@ pub fn forge_with(spec: &Spec, tw: &Tweaks) -> Result<Forged, String> {
     let mut signers: Vec<u8> = vec![];
     let mut input_refs: Vec<([u8; 32], u64)> = vec![];
     let mut mint_policies: Vec<u8> = vec![];
+    let mut ref_refs: Vec<([u8; 32], u64)> = vec![];
+    let mut v1_no_refs = false;
+    let mut script_by_reference = false;
     for (n, i) in spec.inputs.iter().enumerate() {
         let t = txid(i.txid);
         let ix = i.idx as u64 + (n as u64) * 7; // distinct refs even when the recipe repeats itself
@@ -380,6 +403,31 @@ pub fn forge_with(spec: &Spec, tw: &Tweaks) -> Result<Forged, String> {
             signers.push(p.collateral_key);
         }
         plutus_parts = Some((ver, p.script_tag, datum, p.mem, p.steps, sref, cref, p.collateral_coin));
+        v1_no_refs = ver == 1 && era == EraK::Babbage;
+        if p.via_reference && era.babbage_plus() && !v1_no_refs {
+            // the script travels in the script_ref of a reference input: #6.24(bytes .cbor [language, script bytes])
+            let script = cx::array(vec![cx::uint(ver as u64), cx::bytes(&plutus_script_bytes(p.script_tag))]);
+            let rout = cx::map(vec![
+                (cx::uint(0), cx::bytes(&key_addr(p.collateral_key))),
+                (cx::uint(1), cx::uint(4_000_000)),
+                (cx::uint(3), cx::tag(24, cx::bytes(&cx::write(&script)))),
+            ]);
+            let rt = txid(0xdd);
+            utxos.push(Utxo { txid: rt, idx: 2, era, output: cx::write(&rout), key_locked_by: Some(p.collateral_key), role: "reference" });
+            if !tw.drop_script_reference {
+                ref_refs.push((rt, 2));
+            }
+            script_by_reference = true;
+        }
+    }
+    // PlutusV1 may not be combined with reference inputs (Babbage ledger rule, enforced by pallas)
+    if era.babbage_plus() && !v1_no_refs {
+        for n in 0..spec.ref_inputs.min(3) {
+            let rt = txid(0xd0 + n);
+            let rout = output_node(era, spec.legacy_outputs, &key_addr(n), cx::uint(3_000_000 + n as u64), None);
+            utxos.push(Utxo { txid: rt, idx: n as u64, era, output: cx::write(&rout), key_locked_by: Some(n), role: "reference" });
+            ref_refs.push((rt, n as u64));
+        }
     }
     // ---- mint ----
     let mut mint: Assets = Assets::new();
@@ -491,7 +539,18 @@ pub fn forge_with(spec: &Spec, tw: &Tweaks) -> Result<Forged, String> {
         total_mem = *mem;
         total_steps = *steps;
         let script_key = match ver { 1 => 3, 2 => 6, _ => 7 };
-        wit_extra.push((script_key, cx::array(vec![cx::bytes(&plutus_script_bytes(*tag))])));
+        let by_ref = era.babbage_plus() && !(*ver == 1 && era == EraK::Babbage) && spec.plutus.as_ref().map(|p| p.via_reference).unwrap_or(false);
+        if !by_ref {
+            wit_extra.push((script_key, cx::array(vec![cx::bytes(&plutus_script_bytes(*tag))])));
+        }
+        if spec.plutus.as_ref().map(|p| p.empty_sibling_lists).unwrap_or(false) && !matches!(era, EraK::Conway) {
+            let keys: &[u64] = if era == EraK::Babbage { &[1, 3, 6] } else { &[1, 3] };
+            for k in keys {
+                if !wit_extra.iter().any(|(x, _)| x == k) {
+                    wit_extra.push((*k, cx::array(vec![])));
+                }
+            }
+        }
         wit_extra.push((4, cx::array(vec![datum.clone()])));
         wit_extra.push((5, redeemers.clone()));
         // script integrity hash
@@ -505,7 +564,7 @@ pub fn forge_with(spec: &Spec, tw: &Tweaks) -> Result<Forged, String> {
             }
             EraK::Babbage => {
                 pre.extend(&datums_def);
-                pre.extend(hex::decode(ALONZO_V1_LANGUAGE_VIEW).unwrap());
+                pre.extend(hex::decode(if *ver == 1 { crate::babbage_views::V1_ONLY } else { crate::babbage_views::V2_ONLY }).unwrap());
                 script_data_hash = Some(b256(&pre));
             }
             _ => {
@@ -571,8 +630,8 @@ pub fn forge_with(spec: &Spec, tw: &Tweaks) -> Result<Forged, String> {
         m.push((2, cx::node(Kind::UInt(fee, W::B8))));
         let ttl = match (era, spec.ttl_slack) {
             // the Shelley-MA validator demands a ttl in all three eras
-            (EraK::Shelley | EraK::Allegra | EraK::Mary, None) => Some(BLOCK_SLOT + 1000),
-            (_, Some(s)) => Some(BLOCK_SLOT + s as u64),
+            (EraK::Shelley | EraK::Allegra | EraK::Mary, None) => Some(block_slot(era) + 1000),
+            (_, Some(s)) => Some(block_slot(era) + s as u64),
             _ => None,
         };
         if let Some(t) = ttl {
@@ -586,7 +645,7 @@ pub fn forge_with(spec: &Spec, tw: &Tweaks) -> Result<Forged, String> {
             m.push((7, cx::bytes(&h)));
         }
         if let (Some(b), true) = (spec.validity_back, era >= EraK::Allegra) {
-            m.push((8, cx::uint(BLOCK_SLOT - b as u64)));
+            m.push((8, cx::uint(block_slot(era) - b as u64)));
         }
         if !mint.is_empty() {
             let v = value_node(0, &mint, None);
@@ -611,6 +670,11 @@ pub fn forge_with(spec: &Spec, tw: &Tweaks) -> Result<Forged, String> {
         }
         if !cert_nodes.is_empty() {
             m.push((4, cx::array(cert_nodes.clone())));
+        }
+        if !ref_refs.is_empty() {
+            let mut r = ref_refs.clone();
+            r.sort();
+            m.push((18, cx::array(r.iter().map(|(t, i)| input_node(t, *i)).collect())));
         }
         m.sort_by_key(|x| x.0);
         cx::map(m.into_iter().map(|(k, v)| (cx::uint(k), v)).collect())
@@ -677,5 +741,5 @@ pub fn forge_with(spec: &Spec, tw: &Tweaks) -> Result<Forged, String> {
         None => tx.push(0xf6),
     }
     let aux = carried.cloned();
-    Ok(Forged { era, tx, body, wits, aux, utxos, fee, ledger_size, signers, total_mem, total_steps, has_plutus })
+    Ok(Forged { era, tx, body, wits, aux, utxos, fee, ledger_size, signers, total_mem, total_steps, has_plutus, script_by_reference })
 }
